@@ -93,6 +93,9 @@ pub struct Interp<'a> {
     pub events: Vec<Value>,
     objs: HashMap<String, Live>,
     pub skipped: usize,
+    /// non-empty: the same behaviour is recorded again in another process under the same key (C16, determinism
+    /// across process histories)
+    pub twin: String,
 }
 
 pub fn fac_index(facs: &[Box<dyn Factory>], name: &str) -> Option<usize> {
@@ -121,6 +124,7 @@ impl<'a> Interp<'a> {
             events: vec![],
             objs: HashMap::new(),
             skipped: 0,
+            twin: String::new(),
         }
     }
 
@@ -145,6 +149,10 @@ impl<'a> Interp<'a> {
         let iv = &cmd["iv"];
         if let Some(b) = iv.get("bytes") {
             return b.as_array().unwrap().iter().map(|v| v.as_u64().unwrap() as u8).collect();
+        }
+        if let Some(b) = iv.get("fill") {
+            // a degenerate IV: one byte value repeated (all zero, all 0xFF)
+            return vec![b.as_u64().unwrap() as u8; n];
         }
         if let Some(s) = iv.get("belt_s") {
             // IV such that E(IV) = s (little endian), so that BelT's counter starts at s
@@ -615,7 +623,7 @@ impl<'a> Interp<'a> {
         }
         let tabs: Vec<Value> = (0..ncid).map(|i| json!({"e": eb[i], "d": db[i], "n": npairs[i], "ndec": ndec[i]})).collect();
         let mut v = vec![json!({"ev":"scn","id":id,"prop":prop,"gen":generator,"seed":self.seed.to_string(),
-            "n": self.events.len(), "tabs": tabs, "skipped": self.skipped})];
+            "n": self.events.len(), "tabs": tabs, "skipped": self.skipped, "twin": self.twin})];
         v.extend(self.events);
         v
     }
